@@ -644,7 +644,20 @@ func (g *gen) seed() string {
 }
 
 func (g *gen) amount() string {
+	if g.r.Chance(6) {
+		return g.pick(hugeDecimals())
+	}
 	return g.pick([]string{"1", "0.001", "0.000001", "0.0000001", "0", "-1", "1e3", "1e30", "1e400", "1e20000", "9223372036854.775807", "9223372036854.775808", "18446744073709551615", "1.", ".1", "", "abc", "1,5", "0x1", " 1", "1e-7", "00001", "+1", "NaN", "Infinity"})
+}
+
+// hugeDecimals: decimal strings whose value or exponent is enormous.  Comparing or
+// converting such a shopspring/decimal value materialises 10^|exponent|.
+// (1e99999999 needs > 20 s and ~130 MB there; 1e999999999 ten times that.)
+var bigDigits = 200000 // digits of the long digit strings (10^6 in the thorough tier; parsing them is quadratic)
+
+func hugeDecimals() []string {
+	return []string{"1e99999999", "1e-99999999", "-1e99999999", "0e99999999", "1e999999999", "1e-999999999", "1e2147483647", "1e-2147483648", "1e2147483648",
+		"0." + strings.Repeat("0", bigDigits) + "1", strings.Repeat("9", bigDigits), "0." + strings.Repeat("9", bigDigits)}
 }
 
 func (g *gen) rawTxn() string {
@@ -787,7 +800,7 @@ func (g *gen) jsonVal(kind string) interface{} {
 			hs["mode"] = g.pick([]string{"share", "", "x"})
 		}
 		if g.r.Bool() {
-			hs["share_factor"] = g.pick([]string{"0.5", "0", "1", "1.1", "-1", "abc", "1e9999"})
+			hs["share_factor"] = g.pick([]string{"0.5", "0", "1", "1.1", "-1", "abc", "1e9999", "0.25", "1.0", "1e-30", "1e99999999", "1e-99999999", "0e99999999"})
 		}
 		return hs
 	case "to":
@@ -1110,6 +1123,9 @@ func run(args []string) error {
 		return fmt.Errorf("empty route table: %v", rf.Errors)
 	}
 	thorough := f.Tier == "thorough" || f.Tier == "search"
+	if thorough {
+		bigDigits = 1000000
+	}
 	budget := f.Budget(2000, 40000)
 	timeout := 15 * time.Second
 
@@ -1642,6 +1658,76 @@ func run(args []string) error {
 		if hung >= 5 {
 			o.Side["note"] = "stopped early: five requests hung"
 			break
+		}
+	}
+
+	// 2b. every parameter that is parsed as a decimal or a big number, in every
+	// request shape, with enormous exponents / digit strings.  Deterministic, and late:
+	// a request that does not answer leaves a goroutine computing 10^exponent behind,
+	// so the sweep stops at the first one.
+	if hung < 5 {
+		decs := append([]string{"0.5", "1e-30", "1e30"}, hugeDecimals()...)
+		mkTo := func(coins, hours interface{}) []interface{} {
+			to := map[string]interface{}{"address": n.w.Addrs[1].String(), "coins": coins}
+			if hours != nil {
+				to["hours"] = hours
+			}
+			return []interface{}{to}
+		}
+		var srcAddrs []interface{}
+		for _, a := range n.wltAddr {
+			srcAddrs = append(srcAddrs, a.String())
+		}
+		type shape struct {
+			path string
+			base map[string]interface{}
+		}
+		shapes := []shape{
+			{"/api/v1/wallet/transaction", map[string]interface{}{"wallet_id": "plain.wlt", "unsigned": true}},
+			{"/api/v2/transaction", map[string]interface{}{"addresses": srcAddrs}},
+		}
+		stop := false
+		send := func(sh shape, extra map[string]interface{}, note string) {
+			if stop {
+				return
+			}
+			rt, ok := routeOf(sh.path)
+			if !ok {
+				return
+			}
+			m := map[string]interface{}{}
+			for k, v := range sh.base {
+				m[k] = v
+			}
+			for k, v := range extra {
+				m[k] = v
+			}
+			b, _ := json.Marshal(m)
+			ob := exec("requests", rt, reqSpec{method: "POST", path: sh.path, ctype: "application/json", body: string(b), note: note})
+			if ob.kind == "hang" {
+				stop = true
+			}
+		}
+		for _, d := range decs {
+			for _, sh := range shapes {
+				for _, asNumber := range []bool{false, true} {
+					var sf interface{} = d
+					if asNumber {
+						if len(d) > 40 || strings.HasSuffix(d, "2147483648") {
+							continue
+						}
+						sf = json.RawMessage(d) // a JSON number
+					}
+					send(sh, map[string]interface{}{"hours_selection": map[string]interface{}{"type": "auto", "mode": "share", "share_factor": sf},
+						"to": mkTo("0.001", nil)}, "decimal sweep: share_factor")
+				}
+				send(sh, map[string]interface{}{"hours_selection": map[string]interface{}{"type": "manual"}, "to": mkTo(d, "1")}, "decimal sweep: to.coins")
+				send(sh, map[string]interface{}{"hours_selection": map[string]interface{}{"type": "manual"}, "to": mkTo("0.001", d)}, "decimal sweep: to.hours")
+				send(sh, map[string]interface{}{"hours_selection": map[string]interface{}{"type": "auto", "mode": "share", "share_factor": "0.5"}, "to": mkTo(d, nil)}, "decimal sweep: to.coins (auto)")
+			}
+		}
+		if stop {
+			n.abandon = true
 		}
 	}
 
